@@ -400,7 +400,7 @@ func TestSensitive(t *testing.T) {
 	if shard, _ := vk.Shard(); shard == 0 {
 		regress = sensRegress()
 	}
-	vk.Rapid(u, scaled(vk.N(1200, 30000)), regress, func(rt *rapid.T) sensCase { return drawSens(rt, fams) }, check)
+	vk.Rapid(u, scaled(vk.N(800, 15000)), regress, func(rt *rapid.T) sensCase { return drawSens(rt, fams) }, check)
 }
 
 var _ = strings.TrimSpace
